@@ -23,7 +23,7 @@ RULE = ("A: every period of each frequency in the year range x offset table, non
         "(frequency, ordinal); B: BFS over Span operation histories from every (start,end,step) of a "
         "7-serial window per frequency and contextual forms, every transition compared with a Python "
         "range reference, distinct = canonical (freq,start,end,step); C: all ordered frequency pairs x "
-        "9 mixed-frequency operations")
+        "15 mixed-frequency operations")
 MANIFEST_ENTRY = dict(level="model_checking", design="DESIGN.md section 4 / C09",
    technique="explicit-state BFS over Span operation histories vs integer-range reference model + exhaustive enumeration of every period of the calendar",
    text="Every period of every frequency over the stated year range (quick 1800-2200, daily 1896-2104; thorough years 1-9998, daily 1583-2420) is checked against a datetime-only reference calendar for order, arithmetic, hashing, tiling, accessors and keyword shifts with 129 offsets each; the Span API is explored as a state machine (all (start,end,step) of a 7-period window per frequency + contextual forms, BFS depth 2/3, every transition compared with a Python-range reference and checked for isolation); all mixed-frequency operations must raise.",
@@ -205,6 +205,12 @@ MIXED_OPS = {
     "eq": lambda a, b: a == b, "ne": lambda a, b: a != b, "lt": lambda a, b: a < b, "le": lambda a, b: a <= b,
     "gt": lambda a, b: a > b, "ge": lambda a, b: a >= b, "sub": lambda a, b: a - b,
     "span": lambda a, b: D.Span(a, b), "rshift": lambda a, b: a >> b, "from_until": lambda a, b: D.periods_from_until(a, b),
+    # half-open spans resolved against a context of another frequency
+    "resolve_open_end": lambda a, b: D.Span(a, None).resolve(D.ResolutionContext(b, b + 3)),
+    "resolve_open_start": lambda a, b: D.Span(None, a).resolve(D.ResolutionContext(b - 3, b)),
+    "resolve_backward": lambda a, b: D.Span(a, None, -1).resolve(D.ResolutionContext(b - 3, b)),
+    "resolve_offset": lambda a, b: D.Span(a, ir.end - 1).resolve(D.ResolutionContext(b, b + 3)),
+    "resolve_against_span": lambda a, b: D.Span(a, None).resolve(D.Span(b, b + 3)),
 }
 
 
